@@ -3,7 +3,7 @@ from props.m1common import *  # noqa: F401,F403
 from props.m1common import alias_failure, g, sp, sx, rng_for, is_err, compare_result, shrink_tree
 
 PID = "C15"
-KERNELS = ['K_abstf', 'K_split_child_at', 'K_split_at', 'K_extend_until', 'K_sim_split_at', 'K_sequentialize']   # translated from /repo on every run, tied to the model by coq/Gen/<name>_eq.v
+KERNELS = ['K_abstf', 'K_split_child_at', 'K_split_at', 'K_extend_until', 'K_sim_split_at', 'K_sequentialize', 'K_sim_handlers']   # translated from /repo on every run, tied to the model by coq/Gen/<name>_eq.v
 RUNNER = "impl_m1.py"
 VM_CROSSCHECK = True
 N = {"quick": 2100, "thorough": 75000}
